@@ -182,6 +182,10 @@ def check(rep, pid, tier, seed):
                 [x["name"] for x in progs_of[s["prog"]]], "; " + s["exc"] if s["exc"] else "", "; " + s["detail"] if s["detail"] else ""),
                 dict(kind="batch", progs=[[dict(f=x["f"], args=x["args"], forms=x["forms"], seed=x["seed"]) for x in progs_of[q]] for q in sorted(progs_of) if q <= s["prog"]]),
                 key="%s|%s" % (s["name"], clause))
+    dprobs = dtype_forms(m)
+    for p in dprobs:
+        rep.violation("C19 forms: " + p, dict(kind="dtype"), key=p[:40])
+    rep.extra["integer_typed_form_cases"] = dict(cases=29, spellings="Python int / int list, int64 array, int32 array", disagreements=len(dprobs))
     rep.extra["callables_exercised"] = len(callables_hit)
     rep.extra["callables_in_table"] = len(R.TABLE)
     missing = sorted({t[0] for t in R.TABLE} - callables_hit)
@@ -195,7 +199,102 @@ def check(rep, pid, tier, seed):
                 "argument, and programs of length >= 2 check determinism / hidden state)")
 
 
+def dtype_forms(m):
+    """Integer-typed forms: an integral value given as Python int, integer list, int32 / int64 array or integer-typed table column is
+    the same input as its float spelling ("list, array and table forms of the same input give the same values").  Output buffers
+    allocated `like` an argument, accumulators that inherit a parameter's dtype and integer division are the classic ways to break this
+    (seeded changes C08_3, C14_8, C17_1).  Returns a list of problem strings."""
+    pd = m["pd"]
+    earth, T, U, K, EMod, IS, MS, SD = m["pyins"].earth, m["transform"], m["util"], m["kalman"], m["error_model"], m["inertial_sensor"], m["measurements"], m["strapdown"]
+    from . import exc as _exc
+    probs = []
+    I64, I32 = (lambda v: np.array(v, dtype=np.int64)), (lambda v: np.array(v, dtype=np.int32))
+    F = lambda v: np.array(v, dtype=float)
+    ints = (lambda v: [int(x) for x in np.ravel(v)] if np.ndim(v) == 1 else np.array(v).astype(int).tolist(), I64, I32)
+
+    def leaves(r):
+        return X.numeric_leaves(r)
+
+    def same(a, b):
+        la, lb = leaves(a), leaves(b)
+        return len(la) == len(lb) and all(np.shape(x) == np.shape(y) and np.allclose(np.asarray(x, float), np.asarray(y, float), rtol=1e-12, atol=1e-12, equal_nan=True) for x, y in zip(la, lb))
+
+    def case(name, fn, *args, arrays_only=False):
+        """args: integral-valued float arrays / floats; fn is called with the float spelling and with every integer spelling
+        (arrays_only: the parameter is documented as ndarray, so lists are not among its forms)."""
+        try:
+            ref = fn(*[F(a) if np.ndim(a) else float(a) for a in args])
+        except Exception as e:
+            if not _exc.entered_pyins(e):
+                raise
+            return
+        for conv in (ints[1:] if arrays_only else ints):
+            try:
+                got = fn(*[(conv(a) if np.ndim(a) else int(a)) for a in args])
+            except Exception as e:
+                if not _exc.entered_pyins(e):
+                    raise
+                probs.append("%s raises for integer-typed arguments (%s: %s) although the float form of the same values is accepted" % (name, type(e).__name__, str(e)[:80]))
+                return
+            if not same(got, ref):
+                probs.append("%s: integer-typed arguments give different values than the float form of the same values" % name)
+                return
+
+    lat, alt = [55, -33, 0, 84], [120, 3000, -5, 0]
+    case("earth.principal_radii", earth.principal_radii, lat, alt)
+    case("earth.principal_radii(scalar)", earth.principal_radii, 55, 120)
+    case("earth.gravity", earth.gravity, lat, alt)
+    case("earth.gravity_n", earth.gravity_n, lat, alt)
+    case("earth.curvature_matrix", earth.curvature_matrix, lat, alt)
+    case("earth.rate_n", earth.rate_n, lat)
+    case("earth.gravitation_ecef", earth.gravitation_ecef, [[55, 37, 120], [-33, -122, 3000]])
+    case("transform.lla_to_ecef", T.lla_to_ecef, [[55, 37, 120], [-33, -122, 3000]])
+    case("transform.lla_to_ecef(single)", T.lla_to_ecef, [55, 37, 120])
+    case("transform.ecef_to_lla", T.ecef_to_lla, [[2927000, 2205600, 5201400], [-2821000, -4515000, -3500300]])
+    case("transform.perturb_lla", T.perturb_lla, [[55, 37, 120], [-33, -122, 3000]], [[10, -20, 5], [3, 4, -1]])
+    case("transform.compute_lla_difference", T.compute_lla_difference, [[55, 37, 120], [-33, -122, 3000]], [[54, 38, 100], [-33, -121, 2000]])
+    case("transform.lla_to_ned", T.lla_to_ned, [[55, 37, 120], [55, 38, 130], [56, 37, 90]], [55, 37, 100])
+    case("transform.mat_en_from_ll", T.mat_en_from_ll, [55, -33], [37, -122])
+    case("transform.mat_from_rph", T.mat_from_rph, [[10, -20, 30], [45, 5, -100]])
+    case("transform.mat_from_rph(single)", T.mat_from_rph, [10, -20, 30])
+    case("util.skew_matrix", U.skew_matrix, [[1, 2, 3], [-4, 5, 6]])
+    case("util.to_180_range", U.to_180_range, [190, -180, 540, 180, -181, 725])
+    case("util.mv_prod", U.mv_prod, [[[1, 2, 0], [0, 1, 0], [3, 0, 1]]] * 2, [[1, 2, 3], [4, 5, 6]])
+    case("util.mm_prod", U.mm_prod, [[[1, 2, 0], [0, 1, 0], [3, 0, 1]]] * 2, [[[2, 0, 1], [1, 1, 0], [0, 3, 1]]] * 2)
+    case("kalman.correct", lambda x, P, z, H, R: K.correct(x, P, z, H, R), [1, -2, 0], [[4, 1, 0], [1, 3, 0], [0, 0, 2]], [3, 1], [[1, 0, 1], [0, 2, 0]], [[2, 0], [0, 1]], arrays_only=True)
+    case("kalman.compute_process_matrices", lambda Fm, Q: K.compute_process_matrices(Fm, Q, 2), [[0, 1], [0, 0]], [[0, 0], [0, 3]], arrays_only=True)
+
+    def estimation(bias_sd, noise, sm):
+        em = IS.EstimationModel(bias_sd=bias_sd, noise=noise, scale_misal_sd=sm)
+        em.update_estimates(np.arange(1, em.n_states + 1) / 8.0)
+        em.update_estimates(np.arange(1, em.n_states + 1) / 16.0)
+        return (em.P, em.v, em.get_estimates().values, em.correct_increments(np.array([0.5, 0.25]), pd.DataFrame([[1.0, 2.0, 3.0], [0.5, -1.0, 2.0]])).values)
+    case("inertial_sensor.EstimationModel", estimation, [1, 0, 2], [2, 1, 0], [[1, 0, 0], [0, 0, 2], [0, 0, 0]])
+    case("inertial_sensor.EstimationModel(scalar parameters)", lambda b, n: estimation(b, n, None), 1, 2)
+
+    def params(bias, tr):
+        par = IS.Parameters(transform=tr, bias=bias)
+        return par.apply(pd.DataFrame([[1.0, 2.0, 3.0], [0.5, -1.0, 2.0], [2.0, 0.0, 1.0]], index=[0.0, 0.5, 1.5], columns=["a", "b", "c"]), "increment").values
+    case("inertial_sensor.Parameters", params, [1, 0, -2], [[1, 0, 0], [0, 2, 0], [1, 0, 1]])
+
+    def position(sd, lever):
+        data = pd.DataFrame([[55.0, 37.0, 120.0]], index=[3.0], columns=["lat", "lon", "alt"])
+        pva = pd.Series([55.0001, 37.0, 121.0, 1.0, 2.0, 0.0, 10.0, -5.0, 70.0], index=["lat", "lon", "alt", "VN", "VE", "VD", "roll", "pitch", "heading"], name=3.0)
+        return MS.Position(data, sd, lever).compute_matrices(3.0, pva, EMod.InsErrorModel(True))
+    case("measurements.Position", position, 2, [1, 0, -2])
+
+    def increments(g, a):
+        imu = pd.DataFrame(np.hstack([g, a]), index=[0.0, 0.5, 1.0], columns=["gyro_x", "gyro_y", "gyro_z", "accel_x", "accel_y", "accel_z"])
+        return SD.compute_increments_from_imu(imu, "rate").values
+    case("strapdown.compute_increments_from_imu", increments, [[1, 0, 2], [0, 3, 1], [2, 2, 0]], [[0, 0, -10], [1, 0, -9], [0, 2, -10]])
+    return probs
+
+
 def replay(rep, pid, case):
+    if case.get("kind") == "dtype":
+        for p in dtype_forms(filt._imports()):
+            rep.violation("C19 " + p, case)
+        return
     if case.get("kind") == "crossproc":
         tasks = [dict(progs=case["a"], tid=1), dict(progs=case["b"], tid=2)]
         recs = {}
